@@ -105,7 +105,7 @@ def rules(P, R, prefix="C14"):
                                    "%s is passed by &mut to %s: operations on it are outside the analysed vocabulary (undecidable-shape)" % (ctx.term(a), ir.pp(n)[:80]),
                                    reason="undecidable-shape")
         R.floor(prefix + ".F1", len(ops), 9, "VecDeque operations on buffer / pending_replies" + tag)
-        pops, pushes = [], []
+        pops, pushes, bulk = [], [], []
         for (f, n, q), i in ordinal_keys(ops, lambda x: (x[0].path, x[2], x[1]["name"])):
             name = n["name"]
             if name in READERS:
@@ -114,6 +114,11 @@ def rules(P, R, prefix="C14"):
                 pops.append((f, n, q, i))
             elif name in ("push_front", "push_back"):
                 pushes.append((f, n, q, i))
+            elif name in ("into_iter", "drain", "iter") and bulk_move(env, f, n, q, B, Pq) is not None:
+                ok_, why_ = bulk_move(env, f, n, q, B, Pq)
+                bulk.append((f, n, q))
+                R.judge(ok_, prefix + ".F1", key(f, "bulk move out of %s preserves the order of pending_replies ++ buffer%s" % (q, tag), i), n["sp"], why_,
+                        "moving all of %s with this loop reorders the un-acknowledged messages: %s" % (q, why_))
             elif name == "retain" and q == Pq:
                 R.fail(prefix + ".F4", key(f, "in-flight messages leave pending_replies only by their ACK or the re-queue%s" % tag, i), n["sp"],
                        "%s.retain(..) removes messages that were already transmitted: the peer still replies to them, so every later reply is "
@@ -136,6 +141,8 @@ def rules(P, R, prefix="C14"):
         # ---------------- F1: pushes typed by gap
         for (f, n, q, i) in pushes:
             ctx = env.ctx(f)
+            if re.match(r"^(%s|%s)(\.drain\(RangeFull\{\}\))?(\.rev\(\))?\[\*\]$" % (re.escape(B), re.escape(Pq)), ctx.term(n["args"][0])):
+                continue      # element of a bulk move: judged as a whole above
             end = n["name"].split("_")[1]
             gap = GAP[(q, end)]
             at = ctx.term(n["args"][0])
@@ -229,6 +236,14 @@ def rules(P, R, prefix="C14"):
                     brk = [y for y in ir.walk(x["body"], into_closures=False) if y["k"] in ("break", "continue", "ret")]
                     top = ka.parents().get(id(x))
                     drains.append((x, it, brk, top is ka.body))
+        for x in ir.walk(ka.body, into_closures=False):
+            if x["k"] == "for":
+                ctx = env.ctx(ka)
+                it = ctx.term(x["iter"])
+                if re.match(r"^%s(\.drain\(RangeFull\{\}\))?(\.rev\(\))?$" % re.escape(Pq), it) and any(
+                        y["k"] == "mcall" and y["name"] in ("into_iter", "drain") for y in ir.walk(x["iter"])):
+                    brk = [y for y in ir.walk(x["body"], into_closures=False) if y["k"] in ("break", "continue", "ret")]
+                    drains.append((x, it, brk, ka.parents().get(id(x)) is ka.body))
         R.floor(prefix + ".F2", len([d for d in drains if d[3]]), 1, "top-level re-queue loop over pending_replies in keep_alive" + tag)
         for (x, it, brk, top), i in ordinal_keys(drains, lambda d: 0):
             if not top:
@@ -363,6 +378,47 @@ def rules(P, R, prefix="C14"):
 
         # ---------------- F7 peer replies once per frame, in order
         f7(prog, env, W, R, prefix, tag)
+
+
+def bulk_move(env, f, n, q, B, Pq):
+    """`for m in <q>[.into_iter()|.drain(..)][.rev()] { <other>.push_front/back(m) }`: simulate on P=[p1,p2,p3], B=[b1,b2]
+    and require P' ++ B' == P ++ B.  Returns None when n is not the iterator of such a loop, else (ok, description)."""
+    ctx = env.ctx(f)
+    loop = None
+    for a in f.ancestors(n):
+        if a["k"] == "for" and any(x is n for x in ir.walk(a["iter"])):
+            loop = a
+            break
+        if a["k"] in ("loop", "while", "closure"):
+            break
+    if loop is None:
+        return None
+    it = ctx.term(loop["iter"])
+    m = re.match(r"^(?P<q>.+?)(?P<dr>\.drain\(RangeFull\{\}\))?(?P<rev>\.rev\(\))?$", it)
+    if not m or m.group("q") != q:
+        return (False, "iterates `%s` (only full into_iter()/drain(..) with optional rev() are modelled; undecidable-shape)" % it)
+    if n["name"] == "iter":
+        return (False, "iterates by reference: elements are copied, not moved (undecidable-shape)")
+    rev = bool(m.group("rev"))
+    esc = [x for x in ir.walk(loop["body"], into_closures=False) if x["k"] in ("break", "continue", "ret")]
+    pushes = [x for x in ir.walk(loop["body"], into_closures=False) if x["k"] == "mcall" and x["name"] in ("push_front", "push_back")
+              and ctx.term(x["recv"]) in (B, Pq)]
+    others = [x for x in ir.walk(loop["body"], into_closures=False) if x["k"] == "mcall" and ctx.term(x["recv"]) in (B, Pq) and x not in pushes]
+    if esc or others or len(pushes) != 1 or ctx.term(pushes[0]["args"][0]) != it + "[*]":
+        return (False, "loop body is not a single unconditional push of the iterated element")
+    Ps, Bs = ["p1", "p2", "p3"], ["b1", "b2"]
+    want = Ps + Bs
+    src = Ps if q == Pq else Bs
+    order = list(reversed(src)) if rev else list(src)
+    del src[:]
+    dst = Ps if ctx.term(pushes[0]["recv"]) == Pq else Bs
+    for e in order:
+        if pushes[0]["name"] == "push_front":
+            dst.insert(0, e)
+        else:
+            dst.append(e)
+    got = Ps + Bs
+    return (got == want, "%s -> %s.%s%s gives %s (required %s)" % (it, ctx.term(pushes[0]["recv"]), pushes[0]["name"], "", got, want))
 
 
 def _targets(loop, brk):
